@@ -5,9 +5,9 @@
 # result line to /verif/seeded/<ID>-<n>/result.txt
 set -u
 id="$1"; n="$2"; tier="$3"; shift 3
-src="/tmp/wt/$id/seeded/$n"
-dst="/verif/seeded/$id-$n"
-wt="/tmp/mut/verify-$id-$n"
+src="${SEED_BASE:-/tmp/wt}/$id/seeded/$n"
+dst="/verif/seeded/${SEED_PREFIX:-}$id-$n"
+wt="/tmp/mut/verify-${SEED_PREFIX:-}$id-$n"
 export CARGO_TARGET_DIR=/tmp/mut/target-shared CARGO_NET_OFFLINE=true
 mkdir -p /tmp/mut "$dst"
 cp -r "$src"/* "$dst"/ 2>/dev/null
@@ -36,6 +36,6 @@ else
 fi
 git -C /repo worktree remove --force "$wt"
 # 4. our checks
-out=$(/verif/tools/mutant.sh "$id-$n" "$src/patch.diff" "$tier" "$@" 2>&1)
+out=$(/verif/tools/mutant.sh "${SEED_PREFIX:-}$id-$n" "$src/patch.diff" "$tier" "$@" 2>&1)
 echo "$out" | grep -E "^== |^VIOLATION|^  kind:|^INCONCLUSIVE|PATCH" | cut -c1-260 >> "$res"
 cat "$res"
